@@ -87,7 +87,7 @@ def rule_r2(facts, rep, rid="C20-R2"):
                 rep.violation(rid, key, "; ".join(probs) + " — prev/id swapped or stale: the new node's prev pointer would not name the node that links to it", loc(f, call))
             else:
                 rep.ok(rid, key, "(prev = self.id, id = new_node_id())", loc(f, call))
-    rep.floor(rid, "GraphNode::new_* construction sites", n, 21)
+    rep.floor(rid, "GraphNode::new_* construction sites", n, 12)
 
     # add_node_and / add_node_and2: child-or-next linking
     for name in ("GraphBuilder::add_node_and", "GraphBuilder::add_node_and2"):
